@@ -1,7 +1,7 @@
 from vlib.runner import KaniOb
 ASSUMPTIONS = [
     "oracle table generated at check time from data/leap-seconds.list and the DELTET/DELTA_AT block of naif0012.txt; the two files must agree",
-    "LeapSecondsFile::from_path (file I/O + String/Vec parsing) is not encodable; provider equivalence is decided for an array-backed provider holding the IERS table (same trait, same items)",
+    "LeapSecondsFile::from_path's text parsing (file I/O, String) is not encodable; the provider it returns is modelled by a LeapSecondsFile built in-crate from the rows of the IERS list (add-only constructor in the verified copy), whose real iterators / Index are executed; an array-backed provider is checked as well",
     "TAI->UTC: an entry is in force in TAI from its UTC-keyed timestamp plus its own TAI-UTC (the convention under which UTC->TAI->UTC is the identity); during an inserted second the UTC count repeats, so `never backwards` is the offset being a non-decreasing table value (proved) ",
 ]
 E = "src/epoch/mod.rs"
@@ -18,4 +18,8 @@ def obligations(tier, seed):
         KaniOb("c06", "c06_utc_to_tai_monotone", "UTC->TAI strictly increasing (two instants)", f, "all pairs of instants in 1900-2100", tq=1500),
         KaniOb("c06", "c06_provider_equivalence", "leap_seconds / leap_seconds_iers / leap_seconds_with(array-backed IERS provider) agree; IERS-only answers are whole table values", f,
                "every TAI instant 1900-2100", tq=1500, covers=2),
+        KaniOb("c06", "c06_file_provider_iteration", "LeapSecondsFile (built from the rows of the IERS list): forward and reverse iteration and Index yield exactly the rows, first row included",
+               ["leap_seconds_file.rs: Iterator / DoubleEndedIterator / Index for LeapSecondsFile"], "28 rows, concrete; unwind 30", tq=1500),
+        KaniOb("c06", "c06_file_provider_equivalence", "leap_seconds_with(file-backed provider) == built-in for every instant", f + ["LeapSecondsFile iterators"],
+               "every TAI instant 1900-2100; unwind 44", tq=2400, mem=30),
     ]
